@@ -72,6 +72,16 @@ def encode_input_stream(stream, encoding):
         return codecs.getreader(encoding)(stream)
 
 
+def close_ignoring_broken_pipe(stream):
+    # close() flushes the stream and this final flush fails when the consumer has already gone away, which is not an error (see CSVWriter.finish()). The stream gets closed anyway.
+    try:
+        stream.close()
+    except broken_pipe_exception as exc:
+        if broken_pipe_exception == IOError:
+            if exc.errno != EPIPE:
+                raise
+
+
 def encode_output_stream(stream, encoding):
     if encoding is None:
         return stream
@@ -301,7 +311,7 @@ class CSVWriter(rbql_engine.RBQLOutputWriter):
         if self.broken_pipe:
             return
         if self.close_stream_on_finish:
-            self.stream.close()
+            close_ignoring_broken_pipe(self.stream)
         else:
             try:
                 self.stream.flush() # This flush still can throw if all flushes before were sucessfull! And the exceptions would be printed anyway, even if it was explicitly catched just couple of lines after.
@@ -574,7 +584,7 @@ def query_csv(query_text, input_path, input_delim, input_policy, output_path, ou
         if close_input_on_finish:
             input_stream.close()
         if close_output_on_finish:
-            output_stream.close()
+            close_ignoring_broken_pipe(output_stream)
         if join_tables_registry:
             join_tables_registry.finish()
             output_warnings += join_tables_registry.get_warnings()
